@@ -73,7 +73,11 @@ func runC01(c *CaseCtx) {
 			run.CheckStruct("after-commit")
 		}
 		if r.Intn(25) == 0 {
-			if !run.Reopen() {
+			if c.Case%8 == 5 {
+				if !run.ReopenResized(r, 96, 1024, g) {
+					return
+				}
+			} else if !run.Reopen() {
 				return
 			}
 			run.CheckObs("after-reopen")
